@@ -101,6 +101,19 @@ def judge(data, loader_check=False):
         )
     if back != _listify(td):
         return Failure(case, f"report for {data!r} does not survive a JSON round trip"), "bad-json"
+    # the report at every verbosity the API accepts, not only the default one
+    for v in Severity:
+        try:
+            tdv = res.to_dict(v)
+            json.dumps(tdv)
+            check_safety(Pickled.load(data), verbosity=v)
+        except Exception as e:  # noqa: BLE001
+            return (
+                Failure(case, f"report for {data!r} at verbosity {v.name} fails: {type(e).__name__}: {e}"),
+                "bad-json",
+            )
+        if tdv.get("severity") != sev.name:
+            return Failure(case, f"report severity at verbosity {v.name} is {tdv.get('severity')!r}, verdict {sev.name}"), "bad"
     if td.get("severity") != sev.name:
         return Failure(case, f"report severity {td.get('severity')!r} != verdict {sev.name}"), "bad"
     klass = "flagged" if sev != Severity.LIKELY_SAFE else "likely-safe"
@@ -218,7 +231,7 @@ def shards(tier):
     n = 16
     out = [{"kind": "cells", "tier": tier, "part": i, "nparts": n} for i in range(n)]
     out += [{"kind": "harmless", "part": i, "nparts": 4} for i in range(4)]
-    out += [{"kind": "many"}]
+    out += [{"kind": "many"}, {"kind": "odd_targets"}]
     per = 300 if tier == "quick" else 5000
     out += [{"kind": "random", "n": per, "idx": i} for i in range(12)]
     out += [{"kind": "untyped", "n": per, "idx": i} for i in range(8)]
@@ -253,6 +266,29 @@ def run_shard(spec, seed):
                 break
         res.exhaustive = True
         res.extra["product_cells"] = total
+    elif spec["kind"] == "odd_targets":
+        # a mutating opcode or BUILD applied to a value the VM would refuse it on (a static
+        # decompiler cannot know): long and short literals of every kind as the target
+        long_s = b"\x8c\x28" + b"y" * 40
+        lits = {
+            "long-str": long_s, "short-str": b"\x8c\x01a", "int": b"K\x07", "none": b"N",
+            "long-list": b"](" + b"K\x01" * 15 + b"e", "long-tuple": b"(" + b"K\x02" * 15 + b"t",
+            "long-bytes": b"C\x28" + b"z" * 40, "float": b"G?\xf8\x00\x00\x00\x00\x00\x00",
+            "long-set": b"\x8f(" + b"".join(b"K" + bytes([i]) for i in range(15)) + b"\x90",
+            "glob": b"cverif_objs\nmake\n", "call": b"cverif_objs\nmake\n)R",
+        }
+        muts = {"SETITEM": b"K\x01K\x02s", "SETITEMS": b"(K\x01K\x02u", "APPEND": b"K\x01a", "APPENDS": b"(K\x01K\x02e",
+                "ADDITEMS": b"(K\x01\x90", "BUILD": b"}b", "BUILD-str": b"\x8c\x01sb"}  # fmt: skip
+        for ln, lit in lits.items():
+            for mn, mut in muts.items():
+                for tail in (b".", b"0N.", b"\x94\x85."):
+                    data = lit + mut + tail
+                    f, klass = judge(data)
+                    res.note(data, klass != "refused", klass=[klass, "odd-target"], sample={"target": ln, "op": mn, "hex": data.hex()})
+                    if f is not None:
+                        res.failures.append(f)
+                        return res
+        res.exhaustive = True
     elif spec["kind"] == "many":
         for n in (1, 2, 5, 8, 12, 16, 24, 32):
             for call in (False, True):
